@@ -570,12 +570,21 @@ class Path:
         return None
 
 
+def strip_identity(e: ast.AST) -> ast.AST:
+    """Remove value-preserving wrappers: int(x), bool(x), float(x), tuple(x), list(x) with a single argument."""
+    while isinstance(e, ast.Call) and isinstance(e.func, ast.Name) and e.func.id in ("int", "bool", "float", "tuple", "list") and len(e.args) == 1 and not e.keywords:
+        e = e.args[0]
+    return e
+
+
 def atoms(cond: ast.AST, truth: bool) -> List[Tuple[str, bool]]:
     """Decompose a path condition into atomic facts that are certainly known.
 
     (a and b) true  -> a true, b true;   (a or b) false -> a false, b false;   not a -> flipped.
     """
     out = []
+    if isinstance(cond, ast.Call) and isinstance(cond.func, ast.Name) and cond.func.id == "bool" and len(cond.args) == 1 and not cond.keywords:
+        return atoms(cond.args[0], truth)
     if isinstance(cond, ast.UnaryOp) and isinstance(cond.op, ast.Not):
         return atoms(cond.operand, not truth)
     if isinstance(cond, ast.BoolOp):
